@@ -19,6 +19,7 @@ import (
 	"io"
 	"math"
 	"path/filepath"
+	"sort"
 	"strings"
 
 	"github.com/google/pprof/internal/measurement"
@@ -92,7 +93,26 @@ func ComposeDot(w io.Writer, g *Graph, a *DotAttributes, c *DotConfig) {
 	}
 
 	// Add edges to DOT builder. Sort edges by frequency as a hint to the graph layout engine.
-	for _, e := range edges.Sort() {
+	sorted := make(edgeList, 0, len(edges))
+	for _, e := range edges {
+		sorted = append(sorted, e)
+	}
+	// Edges between nodes that the edge order cannot tell apart (nodes of a
+	// call tree that share their Info and values) are ordered by the ids of
+	// their nodes, so that the output does not depend on map iteration order.
+	sort.Slice(sorted, func(i, j int) bool {
+		if sorted.Less(i, j) {
+			return true
+		}
+		if sorted.Less(j, i) {
+			return false
+		}
+		if si, sj := nodeIDMap[sorted[i].Src], nodeIDMap[sorted[j].Src]; si != sj {
+			return si < sj
+		}
+		return nodeIDMap[sorted[i].Dest] < nodeIDMap[sorted[j].Dest]
+	})
+	for _, e := range sorted {
 		builder.addEdge(e, nodeIDMap[e.Src], nodeIDMap[e.Dest], hasNodelets[e.Src])
 	}
 }
